@@ -49,7 +49,7 @@ def rule_R10_1(ctx):
                 out.add("writes_container")
         return out
     eff = ctx.memo("write_eff", lambda: prog.summarize(direct))
-    g_all = sorted(set(x[0].path for x in d.values()))
+    g_all = sorted(set(x.direct.path for x in d.values()))
     graph = prog.call_graph()
     for gp in g_all:
         reach = prog.reachable_from([gp], graph)
@@ -73,7 +73,7 @@ def rule_R10_2(ctx):
         return r
     prog = ctx.prog
     graph = prog.call_graph()
-    roots = sorted(set(x[0].path for x in h[2].values()))
+    roots = sorted(set(x.direct.path for x in h[2].values()))
     reach = prog.reachable_from(roots, graph)
     r = c02.rule_R02_1(ctx, restrict_fns=reach, rule_id="R10.2")
     r.title = "comparison of values that share sub-values cannot hit a held lock (R02.1 on %s)" % roots
@@ -96,7 +96,7 @@ def rule_R10_3(ctx):
         if d[pos] is None:
             r.anchor_missing("helper for %s" % pos)
             continue
-        g = d[pos][0]
+        g = d[pos].direct
         region = {bb for bb, st in pt.vf.state.items()
                   if st and {t[0] for t in st} <= {pos, neg}}
         calls = [c for c in f.calls() if c.bb in region and not c.is_ptr and c.res == g.path]
@@ -278,9 +278,129 @@ def rule_R10_5(ctx):
     return r
 
 
+def _arc_kind(ty):
+    if "std::vec::Vec<eval::value::SourcedValue" in ty:
+        return "List"
+    if "std::collections::BTreeMap<std::string::String, eval::value::SourcedValue" in ty:
+        return "Object"
+    if "eval::value::Func" in ty:
+        return "Func"
+    return None
+
+
+def rule_R10_6(ctx):
+    prog = ctx.prog
+    r = RuleResult("R10.6", "structural comparison uses identity only as a "
+                   "shortcut to `true` between two lists or two objects and "
+                   "never observes addresses",
+                   "an answer that depends on aliasing (or an identity "
+                   "shortcut on functions) makes == differ between values "
+                   "of equal shape, or accepts kinds it must reject")
+    h = helpers(ctx)
+    if h is None or h[2]["Eq"] is None:
+        r.anchor_missing("structural comparison helper")
+        return r
+    direct = h[2]["Eq"].direct
+    graph = prog.call_graph()
+    eff = ctx.memo("lock_eff", lambda: locks.lock_effects(prog))
+    reach = [prog.fns[p] for p in prog.reachable_from([direct.path], graph)
+             if p in prog.fns and prog.fns[p].full and not prog.fns[p].from_expansion
+             and not prog.fns[p].generated]
+
+    def is_identity_helper(g):
+        if g.path == direct.path:
+            return False
+        rs = prog.reachable_from([g.path], graph)
+        return any("::ptr_eq" in p for p in rs) and not eff.get(g.path)
+    ident = {g.path for g in reach if is_identity_helper(g)}
+    S = [g for g in reach if g.path not in ident]
+    r.inst("structural comparison functions: %s; identity helpers: %s"
+           % (sorted(g.path for g in S), sorted(ident)))
+    allowed = {("List", "List"), ("Object", "Object")}
+    n_sites = 0
+    for f in S:
+        for c in f.calls():
+            if c.is_ptr:
+                continue
+            res = c.res or ""
+            if (res.endswith("::as_ptr") and "Arc" in res) or res.endswith("Arc::<T>::into_raw") \
+                    or res.startswith("std::ptr::addr") or res.endswith("::expose_provenance"):
+                r.fail("%s | observes address via %s" % (f.path, res.split("::")[-1]),
+                       "%s, part of the structural comparison, obtains a "
+                       "container's address (%s): the answer can depend on "
+                       "aliasing" % (f.path, res), where=c.loc)
+                continue
+            is_id = res in ident or "::ptr_eq" in res
+            if not is_id:
+                continue
+            n_sites += 1
+            kinds = None
+            ks = [_arc_kind(t) for t in c.argtys[:2]]
+            if len(ks) == 2 and all(ks):
+                kinds = {(ks[0], ks[1])}
+            elif len(c.argtys) >= 2 and all("eval::value::Value" in t for t in c.argtys[:2]):
+                paths = []
+                for a in c.args[:2]:
+                    cp = f.canon_op(a)
+                    cp = tuple(p for p in cp if p != "&")
+                    paths.append(cp)
+                if all(p and p[0][0] == "arg" for p in paths):
+                    tr = [(paths[0] + (("*",) if paths[0][-1:] != ("*",) else ()), VALUE),
+                          (paths[1] + (("*",) if paths[1][-1:] != ("*",) else ()), VALUE)]
+                    sw = ops.arg_rooted_switches(f)
+                    if all(t[0] in sw for t in tr):
+                        vf = mir.VariantFlow(f, tr)
+                        kinds = set(vf.at(c.bb))
+                if kinds is None:
+                    kinds = {(a, b) for a in KINDS for b in KINDS}
+            else:
+                kinds = {(a, b) for a in KINDS for b in KINDS}
+            # only pairs the identity helper can answer true for matter
+            ref_acc = h[2]["RefEq"][1] if h[2]["RefEq"] is not None else set()
+            risky = sorted(k for k in kinds if k in ref_acc and k not in allowed)
+            r.inst("%s: identity test via %s on kinds %s" % (
+                f.path, res.split("::")[-1], sorted(kinds)[:4] if len(kinds) < 10 else "any"))
+            if risky:
+                r.fail("%s | identity-shortcut kinds=%s" % (f.path, ",".join("%s/%s" % k for k in risky)),
+                       "%s applies an identity test inside the structural "
+                       "comparison where the operands can be %s; two "
+                       "aliases of such values would compare equal instead "
+                       "of being rejected" % (f.path, risky), where=c.loc)
+                continue
+            # the identical edge must answer true
+            ok_true = None
+            if c.target is not None and f.term(c.target)["k"] == "switch":
+                info = f.switch_info(c.target)
+                if info and info["kind"] == "bool":
+                    t_true = info["otherwise"]
+                    for v, tgt in info["cases"]:
+                        if v is True:
+                            t_true = tgt
+                    cur = t_true
+                    ok_true = False
+                    for _ in range(8):
+                        for s_ in f.stmts(cur):
+                            if s_[0] == "=" and s_[2][0] == "agg" and s_[2][1].get("adt") == "std::result::Result" \
+                                    and s_[2][1]["variant"] == "Ok" and mir.const_val(s_[2][2][0]) is True:
+                                ok_true = True
+                        nx = f.succs(cur)
+                        if ok_true or len(nx) != 1:
+                            break
+                        cur = nx[0]
+            if ok_true is False:
+                r.fail("%s | identity result not a shortcut to true" % f.path,
+                       "in %s the outcome 'same cell' does not directly "
+                       "answer true" % f.path, where=c.loc)
+            else:
+                r.ok()
+    if not n_sites and not r.violations:
+        r.ok()
+    return r
+
+
 def run(ctx):
     return [rule_R10_1(ctx), rule_R10_2(ctx), rule_R10_3(ctx), rule_R10_4(ctx),
-            rule_R10_5(ctx)]
+            rule_R10_5(ctx), rule_R10_6(ctx)]
 
 
 META = {
